@@ -456,3 +456,38 @@ func verifLemma_C12_tag_overlay_reads(v string, w string, x string) {
 	late := m.WrapFeature(WrapFeature(base1, nil))
 	verifrt.Assert(late.Get("a").Value.String() == v && late.Get("b").Value.String() == x && late.Get("c").Value.String() == w, "a-feature-wrapped-later-reads-the-same")
 }
+
+func (w vListWorld) FindFeatureByID(id b6.FeatureID) b6.Feature {
+	for _, f := range w.fs {
+		if f.FeatureID() == id {
+			return f
+		}
+	}
+	return nil
+}
+
+// ---- C14: snapshots of the tags-overlay world (bounded history) ---------------------------
+// The real MutableTagsOverlayWorld over a two-feature list world (test double). Edits made
+// after a snapshot never show in the snapshot, the snapshot keeps showing the edits made
+// before it, the live world shows both, and a second snapshot freezes the state in between.
+func verifLemma_C14_tags_overlay_snapshot(v string, w string, x string, y string) {
+	id1, id2 := FromOSMRelationID(1), FromOSMRelationID(2)
+	base1 := &RelationFeature{RelationID: id1, Tags: b6.Tags{{Key: "a", Value: b6.NewStringExpression("1")}, {Key: "b", Value: b6.NewStringExpression("2")}}}
+	base2 := &RelationFeature{RelationID: id2, Tags: b6.Tags{{Key: "a", Value: b6.NewStringExpression("3")}}}
+	live := NewMutableTagsOverlayWorld(vListWorld{fs: []b6.Feature{base1, base2}})
+	live.AddTag(id1.FeatureID(), b6.Tag{Key: "a", Value: b6.NewStringExpression(v)})
+	s1 := live.Snapshot()
+	live.AddTag(id1.FeatureID(), b6.Tag{Key: "a", Value: b6.NewStringExpression(w)})
+	live.AddTag(id2.FeatureID(), b6.Tag{Key: "c", Value: b6.NewStringExpression(x)})
+	verifrt.Assert(s1.FindFeatureByID(id1.FeatureID()).Get("a").Value.String() == v, "snapshot-keeps-the-value-it-had")
+	verifrt.Assert(!s1.FindFeatureByID(id2.FeatureID()).Get("c").IsValid(), "snapshot-does-not-see-a-later-key")
+	verifrt.Assert(s1.FindFeatureByID(id1.FeatureID()).Get("b").Value.String() == "2", "snapshot-reads-untouched-keys-from-the-base")
+	verifrt.Assert(live.FindFeatureByID(id1.FeatureID()).Get("a").Value.String() == w, "live-world-shows-the-later-edit")
+	verifrt.Assert(live.FindFeatureByID(id2.FeatureID()).Get("c").Value.String() == x, "live-world-shows-the-later-key")
+	s2 := live.Snapshot()
+	live.AddTag(id1.FeatureID(), b6.Tag{Key: "b", Value: b6.NewStringExpression(y)})
+	verifrt.Assert(s2.FindFeatureByID(id1.FeatureID()).Get("a").Value.String() == w && s2.FindFeatureByID(id1.FeatureID()).Get("b").Value.String() == "2", "second-snapshot-freezes-the-state-in-between")
+	verifrt.Assert(s1.FindFeatureByID(id1.FeatureID()).Get("a").Value.String() == v && s1.FindFeatureByID(id1.FeatureID()).Get("b").Value.String() == "2", "first-snapshot-still-unchanged")
+	verifrt.Assert(live.FindFeatureByID(id1.FeatureID()).Get("a").Value.String() == w && live.FindFeatureByID(id1.FeatureID()).Get("b").Value.String() == y && live.FindFeatureByID(id2.FeatureID()).Get("c").Value.String() == x, "live-world-shows-everything")
+	verifrt.Assert(s1.FindFeatureByID(FromOSMRelationID(9).FeatureID()) == nil, "absent-feature-stays-absent")
+}
